@@ -5,7 +5,7 @@ import ring_common as R
 
 PROP = 'C06'
 BUILDS, MINIMISE, SHARD_TIMEOUT, RULE = R.BUILDS, R.MINIMISE, R.SHARD_TIMEOUT, R.RULE
-TRANSLATORS = R.TRANSLATORS + ['executor']     # Gen/Executor.lean (ThreadedExecutor), Props/C06Gen.lean
+TRANSLATORS = R.TRANSLATORS + ['executor', 'spinwait']     # Gen/Executor.lean (ThreadedExecutor), Props/C06Gen.lean
 ASSUMPTIONS = R.ASSUMPTIONS + [
     'termination theorems assume a fair schedule: spin strategy — weak fairness (every thread of the topology is scheduled '
     'infinitely often); blocking strategy — weak fairness plus strong fairness of lock acquisition (a thread whose lock / '
@@ -17,7 +17,7 @@ ASSUMPTIONS = R.ASSUMPTIONS + [
     'termination is false (known finding F11: a stranded sequence), those runs are judged by the oracle on the '
     'implementation events',
 ]
-EXTRA_THEOREM_MODULES = ['DcVerif.Props.C06Gen', 'DcVerif.Props.C13Gen', 'DcVerif.Lemmas.Ring', 'DcVerif.Lemmas.FairTermination', 'DcVerif.Lemmas.RingLive',
+EXTRA_THEOREM_MODULES = ['DcVerif.Props.C06Gen', 'DcVerif.Props.C13WaitGen', 'DcVerif.Props.C13Gen', 'DcVerif.Lemmas.Ring', 'DcVerif.Lemmas.FairTermination', 'DcVerif.Lemmas.RingLive',
                          'DcVerif.Lemmas.RingMultiLiveC', 'DcVerif.Lemmas.RingMultiLiveInv', 'DcVerif.Lemmas.RingMultiLive',
                          'DcVerif.Lemmas.RingMultiLiveS', 'DcVerif.Lemmas.RingMultiLiveB']
 classify, nontrivial = R.classify, R.nontrivial
